@@ -8,10 +8,10 @@ import (
 	"github.com/glebziz/fs_db/internal/verifh/ev"
 )
 
-var faultLens = []int{0, 1, 100, 2047, 2048, 2049, 4096, 5000, 32767, 32768, 32769, 65536, 65537, 100000}
+var faultLens = []int{0, 1, 100, 2047, 2048, 2049, 4096, 5000, 32767, 32768, 32769, 40000, 65536, 65537, 70000, 100000}
 
 func genPos(t *rapid.T, l int) int {
-	cands := []int{0, 1, 2047, 2048, 2049, 32767, 32768, 32769, l - 1, l, l + 1}
+	cands := []int{0, 1, 2047, 2048, 2049, 32767, 32768, 32769, l - 1, l, l + 1, l - 100, (l / 32768) * 32768, (l/32768)*32768 + 1, (l/2048)*2048 + 1}
 	var ok []int
 	for _, c := range cands {
 		if c >= 0 && c <= l+1 {
@@ -24,7 +24,41 @@ func genPos(t *rapid.T, l int) int {
 	return rapid.IntRange(0, l+1).Draw(t, "posAny")
 }
 
+// genContinuation draws the multi-root continuation case directly: all roots but one run out of
+// space somewhere in the content (often in its last, shorter chunk), the healthy root reports more
+// free space than the failing ones, so the write has to continue there and store the exact bytes.
+func genContinuation(t *rapid.T) FaultCase {
+	fc := FaultCase{Fault: "enospc"}
+	fc.Client = rapid.SampledFrom([]string{"inline-set", "inline-reader", "inline-create", "ext-set", "ext-reader", "ext-create", "handler"}).Draw(t, "client")
+	fc.Roots = rapid.IntRange(2, 3).Draw(t, "roots")
+	healthy := rapid.IntRange(0, fc.Roots-1).Draw(t, "healthy")
+	for i := 0; i < fc.Roots; i++ {
+		if i == healthy {
+			fc.Free = append(fc.Free, 1<<40)
+		} else {
+			fc.Faulty = append(fc.Faulty, i)
+			fc.Free = append(fc.Free, rapid.SampledFrom([]uint64{1 << 20, 1 << 30}).Draw(t, "freeFaulty"))
+		}
+	}
+	fc.Len = rapid.OneOf(rapid.SampledFrom([]int{2049, 5000, 32769, 40000, 65537, 70000, 100000}), rapid.IntRange(1, 100000)).Draw(t, "len")
+	lastChunk := (fc.Len - 1) / 32768 * 32768
+	fc.Pos = rapid.OneOf(rapid.SampledFrom([]int{0, 1, lastChunk, lastChunk + 1, fc.Len - 1}), rapid.IntRange(0, fc.Len-1)).Draw(t, "pos")
+	if fc.Pos < 0 {
+		fc.Pos = 0
+	}
+	fc.Partial = rapid.SampledFrom([]int{0, 0, 1, 100, 2047, 32767}).Draw(t, "partial")
+	fc.Prev = rapid.SampledFrom([]string{"absent", "value", "deleted"}).Draw(t, "prev")
+	fc.PrevLen = 3
+	if fc.Client == "inline-reader" || fc.Client == "ext-reader" || fc.Client == "inline-create" || fc.Client == "ext-create" {
+		fc.Split = rapid.SliceOfN(rapid.SampledFrom([]int{0, 1, 100, 2047, 2048, 2049, 32768, 50000}), 0, 3).Draw(t, "split")
+	}
+	return fc
+}
+
 func genC10(t *rapid.T) FaultCase {
+	if rapid.IntRange(0, 3).Draw(t, "continuation") == 0 {
+		return genContinuation(t)
+	}
 	fc := FaultCase{}
 	fc.Client = rapid.SampledFrom([]string{"inline-set", "inline-reader", "inline-reader", "inline-create", "ext-set", "ext-reader", "ext-reader", "ext-create", "handler"}).Draw(t, "client")
 	fc.Roots = rapid.IntRange(1, 3).Draw(t, "roots")
@@ -67,7 +101,21 @@ func genC10(t *rapid.T) FaultCase {
 				fc.Faulty = append(fc.Faulty, (start+i)%fc.Roots)
 			}
 		}
-		if rapid.IntRange(0, 3).Draw(t, "freeKind") > 0 {
+		switch rapid.IntRange(0, 4).Draw(t, "freeKind") {
+		case 0: // real free space (equal for all roots of the sandbox)
+		case 1, 2: // the continuation case: every healthy root reports more free space than every failing one
+			isFaulty := map[int]bool{}
+			for _, i := range fc.Faulty {
+				isFaulty[i] = true
+			}
+			for i := 0; i < fc.Roots; i++ {
+				if isFaulty[i] {
+					fc.Free = append(fc.Free, rapid.SampledFrom([]uint64{1 << 20, 1 << 30}).Draw(t, "freeFaulty"))
+				} else {
+					fc.Free = append(fc.Free, rapid.SampledFrom([]uint64{1 << 31, 1 << 40}).Draw(t, "freeHealthy"))
+				}
+			}
+		default:
 			for i := 0; i < fc.Roots; i++ {
 				fc.Free = append(fc.Free, rapid.SampledFrom([]uint64{1 << 20, 1 << 30, 1 << 30, 1 << 40, 5 << 30}).Draw(t, "free"))
 			}
